@@ -15,6 +15,11 @@ FLOORS = {
               "anomalies_with_proper_subset": 150, "transform_cells_checked": 20000},
     "thorough": {"distinct_nontrivial": 1500, "anomalies_checked": 10000},
 }
+ANCHORS = [
+    "skchange.anomaly_detectors.mvcapa.find_affected_components",
+    "skchange.anomaly_detectors.mvcapa.run_mvcapa",
+    "skchange.anomaly_detectors.base.SubsetCollectiveAnomalyDetector.sparse_to_dense",
+]
 LEVEL = "exploration"
 RULE = (
     "case = MVCAPA(saving, penalties, scales, m, M) on seeded multivariate data (p in 2..6, n<=70 / "
